@@ -70,6 +70,32 @@ def stepHImpl (key : α → κ) (pool : List (Hash α β κ)) : HOp α β → Li
       | some n => (pool.set i n, .made)
       | none => (pool, .fault)
     | _, _ => (pool, .badRef)
+  | .slice i x y =>
+    match pool[i]? with
+    | some h =>
+      match h.slice x y with
+      | some n => (pool ++ [n], .made)
+      | none => (pool, .badBounds)
+    | none => (pool, .badRef)
+  | .select i ks =>
+    match pool[i]? with
+    | some h => (pool ++ [h.selectPairs (fun e => (ks.map key).contains (key e.1))], .made)
+    | none => (pool, .badRef)
+  | .reject i ks =>
+    match pool[i]? with
+    | some h => (pool ++ [h.rejectPairs (fun e => (ks.map key).contains (key e.1))], .made)
+    | none => (pool, .badRef)
+  | .sort i le =>
+    match pool[i]? with
+    | some h => (pool ++ [h.sort le], .made)
+    | none => (pool, .badRef)
+  | .eachSlice i n =>
+    match pool[i]? with
+    | some h =>
+      match h.eachSlice n with
+      | some cs => (pool, .chunks cs)
+      | none => (pool, .illegal)
+    | none => (pool, .badRef)
 
 def runHImpl (key : α → κ) (pool : List (Hash α β κ)) : List (HOp α β) → List (HObs α β) × List (Hash α β κ)
   | [] => ([], pool)
